@@ -81,6 +81,57 @@ pub fn run(ctx: &mut Ctx) {
         }
     }
 
+    // ---- overlapping logins on one thread: a server answers several clients at once.  All challenges are issued
+    //      first (into_proof for every session), then the clients answer, then the server finishes the sessions in
+    //      FIFO, LIFO or a random order.  Every session is an honest exchange and must authenticate with equal
+    //      keys - a value parked between into_proof and into_server by one session must not leak into another.
+    {
+        use wow_srp::client::SrpClientChallenge;
+        use wow_srp::server::SrpVerifier;
+        use wow_srp::{PublicKey, GENERATOR, LARGE_SAFE_PRIME_LITTLE_ENDIAN as NLE};
+        let mut rng = ctx.rng("overlap");
+        let n = if ctx.quick() { 60 } else { 3000 };
+        for k in 0..n {
+            let sessions = 2 + rng.range(0, 3) as usize;
+            let creds: Vec<(String, String)> = (0..sessions).map(|_| { let (a, b) = (rng.range(1, 16) as usize, rng.range(1, 16) as usize); (rand_cred(&mut rng, a), rand_cred(&mut rng, b)) }).collect();
+            let mut order: Vec<usize> = (0..sessions).collect();
+            match k % 3 { 0 => {}, 1 => order.reverse(), _ => { for i in (1..sessions).rev() { let j = rng.below(i as u64 + 1) as usize; order.swap(i, j); } } }
+            let (cr, ord) = (creds.clone(), order.clone());
+            let r = catch(move || {
+                let proofs: Vec<_> = cr.iter().map(|(u, p)| {
+                    let acct = SrpVerifier::from_username_and_password(ns(u), ns(p));
+                    SrpVerifier::from_database_values(ns(acct.username()), *acct.password_verifier(), *acct.salt()).into_proof()
+                }).collect();
+                let clients: Vec<_> = cr.iter().zip(proofs.iter()).map(|((u, p), pr)| {
+                    SrpClientChallenge::new(ns(&u.to_ascii_lowercase()), ns(&p.to_ascii_uppercase()), GENERATOR, NLE, PublicKey::from_le_bytes(*pr.server_public_key()).unwrap(), *pr.salt())
+                }).collect();
+                let mut proofs: Vec<Option<_>> = proofs.into_iter().map(Some).collect();
+                let mut clients: Vec<Option<_>> = clients.into_iter().map(Some).collect();
+                let mut out: Vec<(usize, &'static str)> = Vec::new();
+                for i in ord {
+                    let (pr, cl) = (proofs[i].take().unwrap(), clients[i].take().unwrap());
+                    let a = PublicKey::from_le_bytes(*cl.client_public_key()).unwrap();
+                    match pr.into_server(a, *cl.client_proof()) {
+                        Err(_) => out.push((i, "the server rejected the honest client's proof")),
+                        Ok((srv, m2)) => match cl.verify_server_proof(m2) {
+                            Err(_) => out.push((i, "the client rejected the server's proof")),
+                            Ok(c) => if c.session_key() != srv.session_key() { out.push((i, "session keys differ")); },
+                        },
+                    }
+                }
+                out
+            });
+            ctx.oracle_runs += sessions as u64;
+            let cj: Vec<String> = creds.iter().map(|(u, p)| format!("[{},{}]", jstr(u), jstr(p))).collect();
+            let det = |what: &str| format!("{{\"what\":\"{}\",\"sessions\":[{}],\"into_server_order\":{:?}}}", what, cj.join(","), order);
+            match r {
+                None => ctx.fail("panic", det("panic in overlapping logins")),
+                Some(bad) => for (i, what) in bad { ctx.fail("honest_login", det(&format!("overlapping logins on one thread, session {}: {}", i, what))); },
+            }
+            ctx.count("oracle:overlapping logins (batches)");
+        }
+    }
+
     // ---- implementation-only oracle: many honest logins, all must succeed with equal keys ----
     let per_thread = if ctx.quick() { 2_000 } else { 500_000 };
     let seed = ctx.seed;
